@@ -1,6 +1,6 @@
 (* C15: per-block price band.  Statements only. *)
 From MP.Model Require Import Prelude U128 SInt Feed Vamm VammOps Token World Engine Runtime.
-From MP.Proofs Require Import Tactics SIntFacts VammFacts SwapFacts MoreFacts BandFacts.
+From MP.Proofs Require Import Tactics SIntFacts VammFacts SwapFacts MoreFacts BandFacts Scenario.
 
 (* with a non-zero limit, a trade that may not go over the limit (every opening / increasing /
    reducing swap_input of OpenPosition) is accepted only if the price before it and the price after
@@ -102,3 +102,22 @@ Theorem C15_open_position_ends_in_band : forall f w t v s m l lim funds w' vm0,
   sval (p_size (read_position (w_eng w') v t)) = 0.
 Proof. exact open_position_ends_in_band. Qed.
 Print Assumptions C15_open_position_ends_in_band.
+
+(* non-vacuity: in the concrete scenario (non-zero limit, reference snapshot from an earlier block) an
+   increasing and a reversing OpenPosition succeed and every premise of the end-to-end theorem holds *)
+Definition c15_example : bool :=
+  match scenario with
+  | Ok w =>
+      match zfind 11 (w_vamms w) with
+      | Some vm0 =>
+          wfvb vm0 && negb (v_fluct (vc vm0) =? 0) && stableb vm0 (w_env w) && (0 <? e_dec (ec (w_eng w))) &&
+          (0 <=? sval (p_size (read_position (w_eng w) 11 21))) &&
+          match exec_op (-1) w (OEngine 21 (EOpenPosition 11 Buy 1000000 2000000 0) 0) with Ok _ => true | Err _ => false end &&
+          match exec_op (-1) w (OEngine 21 (EOpenPosition 11 Sell 8000000 2000000 0) 0) with
+          | Ok w' => negb (sval (p_size (read_position (w_eng w') 11 21)) =? 0) | Err _ => false end
+      | None => false
+      end
+  | Err _ => false
+  end.
+Example C15_nonvacuous : c15_example = true.
+Proof. vm_compute. reflexivity. Qed.
